@@ -27,7 +27,7 @@ TARGETS = ['PyTough.Props.C03', 'drv_c03']
 THEOREMS = ['Props.C03.' + t for t in [
     'table_is_current', 'geo_roundtrip', 'reread_unique', 'header_preserved', 'nodes_preserved', 'columns_preserved',
     'connections_preserved', 'layers_preserved', 'surfaces_preserved', 'wells_preserved', 'names_lists_preserved',
-    'geo_write_fixpoint_partial',
+    'geo_write_fixpoint_partial', 'later_generations',
     'rounding_idempotent', 'feet_roundtrip', 'rjust_names_safe', 'left_justified_name_changes',
     'layer_centre_zero_lost', 'second_file_differs']]
 LEVEL_TEXT = ('Proof: Lean theorems about an executable model of mulgrid.write / mulgrid(file): for every well-formed geometry (decidable WF = the '
@@ -328,7 +328,7 @@ def gen_origin(rng):
     if s < 0.25: xy = [0.0, 0.0]
     elif s < 0.45: xy = [rng.uniform(-500, 500), rng.uniform(-500, 500)]
     elif s < 0.65: xy = [2.77e6 + rng.uniform(0, 9000), 6.28e6 + rng.uniform(0, 9000)]
-    elif s < 0.8: xy = [rng.choice([9.9e6, 9.99e6]) , rng.choice([-9.5e5, -9.9e5])]
+    elif s < 0.8: xy = [rng.choice([9.9e6, 9.97e6, 9.99e6]), rng.choice([-9.5e5, -9.8e5, -9.9e5])]
     else: xy = [rng.randint(-100000, 100000) / 16.0, rng.randint(-100000, 100000) / 100.0]
     t = rng.random()
     if t < 0.3: z = 0.0
@@ -697,8 +697,13 @@ def damage(rng, text):
     elif k < 0.9:
         j = rng.randrange(len(lines[i]) + 1)
         lines[i] = lines[i][:j] + rng.choice(['x', ' ', '9', '-', '.']) + lines[i][j + 1:]
-    else:
+    elif k < 0.95:
         lines[0] = lines[0][:5] + rng.choice(['4', '9', ' ']) + lines[0][6:]
+    else:
+        # any header column: atmosphere type digit, unit type, block order, numbers
+        j = rng.choice([5, 6, 6, 27, 28, 31, 52, 63, 64, 64, rng.randrange(0, 66)])
+        h = lines[0].ljust(65)
+        lines[0] = h[:j] + rng.choice('0123456789 FET-.x') + h[j + 1:]
     return '\n'.join(lines)
 
 
@@ -768,7 +773,70 @@ def classify(res, rc, g):
     res.count('coordinates:%s' % ('<1e4' if big < 1e4 else '<1e6' if big < 1e6 else '7-digit (10 columns)'))
 
 
+ANCHORED = {'mulgrids.py': ['read_header', 'read_nodes', 'read_columns', 'read_connections', 'read_layers', 'read_surface', 'read_wells',
+                            'read', 'write', 'write_header', 'write_nodes', 'write_columns', 'write_connections', 'write_layers',
+                            'write_surface', 'write_wells', 'set_unit_type', 'set_secondary_variables', 'identify_layer_tops',
+                            'set_default_surface', 'set_column_num_layers', 'setup_block_name_index', 'block_name_list_layer_column',
+                            'block_name_list_dmplex', 'setup_block_connection_name_index', 'block_name', 'fix_blockname',
+                            'add_node', 'add_column', 'add_connection', 'add_layer', 'add_well'],
+            'fixed_format_file.py': ['parse_string', 'write_values_to_string', 'fit_value', 'read_values', 'write_values',
+                                     'read_value_line', 'write_value_line', 'preprocess_specification']}
+
+
+def anchored_lines():
+    """{file: {function: set(line numbers of its body)}} from the current tree (ast)"""
+    import ast
+    out = {}
+    for fn, names in ANCHORED.items():
+        tree = ast.parse((core.REPO / fn).read_text())
+        d = {}
+        for node in ast.walk(tree):
+            if isinstance(node, ast.FunctionDef) and node.name in names:
+                body = set()
+                for st in node.body:
+                    if isinstance(st, ast.Expr) and isinstance(getattr(st, 'value', None), ast.Constant) and isinstance(st.value.value, str):
+                        continue                                   # docstring
+                    for sub in ast.walk(st):
+                        if hasattr(sub, 'lineno') and isinstance(sub, ast.stmt):
+                            body.add(sub.lineno)
+                d.setdefault(node.name, set()).update(body)
+        out[fn] = d
+    return out
+
+
 def run(ctx, only_oracle=False, n=None, seed_shift=0):
+    cov = None
+    if not ctx.quick and not only_oracle and not seed_shift:
+        try:
+            import coverage
+            cov = coverage.Coverage(data_file=None, include=[str(core.REPO / f) for f in ANCHORED])
+            cov.start()
+        except Exception:
+            cov = None
+    try:
+        res = _run(ctx, only_oracle, n, seed_shift)
+    finally:
+        if cov is not None: cov.stop()
+    if cov is not None:
+        reach = {}
+        data = cov.get_data()
+        for fn, funcs in anchored_lines().items():
+            hit = set(data.lines(str(core.REPO / fn)) or [])
+            for name, lines in funcs.items():
+                miss = sorted(lines - hit)
+                reach['%s:%s' % (fn, name)] = {'statements': len(lines), 'executed': len(lines) - len(miss), 'not_executed_lines': miss}
+        tot = sum(v['statements'] for v in reach.values())
+        ex = sum(v['executed'] for v in reach.values())
+        res.stats['reach: statements of the anchored functions executed'] = '%d/%d' % (ex, tot)
+        res.reach = reach
+        EVIDENCE_EXTRA['measured_reach'] = reach
+    return res
+
+
+EVIDENCE_EXTRA = {}
+
+
+def _run(ctx, only_oracle=False, n=None, seed_shift=0):
     res = Result()
     res.rule = ('one case = one geometry (recipe: rectangular with generated spacings/origin or a shipped geometry with a refine/reduce/'
                 'rotate/translate derivation; convention, atmosphere type, unit type, block order, surfaces, specified centres, wells) taken '
@@ -781,12 +849,18 @@ def run(ctx, only_oracle=False, n=None, seed_shift=0):
     hyp_lck = res.hyp.setdefault('LayerCentresKept g', [0, 0])
     hyp_st = res.hyp.setdefault('StableSurfaces g (hypothesis of names_lists_preserved)', [0, 0])
     hyp_sz = res.hyp.setdefault('SizesStable g (proved from WF: sizesStable_of_fits; evaluated as a cross-check)', [0, 0])
-    if n is None: n = ctx.n(70, 1500)
+    if n is None: n = ctx.n(70, 700)
     rcs = recipes(ctx, n) if not seed_shift else [gen_recipe(ctx.rng('search%d' % seed_shift), True, i) for i in range(n)]
     rng_mal = ctx.rng('malformed')
     reqs, meta = [], []
-    n_feet_hyp = [0, 0]
+
+    def flush():
+        if reqs:
+            process_replies(res, reqs, meta)
+            del reqs[:]
+            del meta[:]
     for idx, rc in enumerate(rcs):
+        if len(reqs) > 400 or sum(len(r) for r in reqs) > 6 * 10 ** 7: flush()
         try:
             g = build(rc)
         except Exception as e:
@@ -878,7 +952,7 @@ def run(ctx, only_oracle=False, n=None, seed_shift=0):
                     meta.append(('write', rc, rw2, None))
             # damaged variants of the file
             if len(real_w) < 40000:
-                for _ in range(2):
+                for _ in range(3):
                     bad = damage(rng_mal, real_w)
                     fb = str(tmp / 'bad.dat')
                     open(fb, 'w').write(bad)
@@ -901,6 +975,17 @@ def run(ctx, only_oracle=False, n=None, seed_shift=0):
             reqs.append('read ' + text.encode('latin-1').hex())
             meta.append(('read', {'base': 'shipped-original', 'file': f}, R, False))
 
+    flush()
+    res.exhaustive = False
+    return res
+
+
+def process_replies(res, reqs, meta):
+    fw, frd, fmal, fcan = res.facet('geo_write'), res.facet('geo_read'), res.facet('geo_malformed'), res.facet('geo_canon')
+    hyp_wf = res.hyp['WF g (hypothesis of geo_roundtrip and its corollaries)']
+    hyp_lck = res.hyp['LayerCentresKept g']
+    hyp_st = res.hyp['StableSurfaces g (hypothesis of names_lists_preserved)']
+    hyp_sz = res.hyp['SizesStable g (proved from WF: sizesStable_of_fits; evaluated as a cross-check)']
     if reqs:
         out = core.run_driver('drv_c03', reqs)
         last_wf = None
@@ -948,8 +1033,6 @@ def run(ctx, only_oracle=False, n=None, seed_shift=0):
                 if d:
                     fac['disagreements'] += 1
                     res.disagreements.append(dict(facet='geo_read' if kind == 'read' else 'geo_malformed', case=rc if kind == 'malformed' else {'recipe': rc}, model=d[:200], impl='(see model field)'))
-    res.exhaustive = False
-    return res
 
 
 def exc_same(real, model):
